@@ -53,6 +53,27 @@ CLAIMED.update({
                 design='§6 C18', note=NOTE_COMMON + ' IEEE scaling by powers of two assumed exact (no overflow/underflow in the generated range). Known finding: Obv.'),
 })
 
+CLAIMED.update({
+    'C05': dict(level='proof', technique='Lean 4 proof: every base strategy is Shift(idle, Hold) over a stream aligned at idle (44 generated theorems) + generic counting theorem; correspondence and count oracle on Go',
+                text='For 34 base-strategy configurations families Lean proves the body is the Go Shift(actions, idle, Hold) over an inner decision stream aligned exactly at idle, for all admissible periods; the generic '
+                     'theorem then gives exactly n actions with idle leading Holds for n >= idle and exactly idle Holds for shorter inputs, for every input. Alligator/Smma are proved as-is to emit n+1 (known findings). '
+                     'All 32 strategies are run against the model (identical action streams) and against the counting oracle for n in {0,1,w-1,w,w+1,2w+3,...}.',
+                design='§6 C05', note=NOTE_COMMON + ' Actions are encoded as numbers -1/0/1 in the model (Go Action is an int). Dema and Trima strategies: correspondence + oracle only.'),
+    'C06': dict(level='proof', technique='Lean 4 proof: den(strategy) = documented rule(den(documented indicator on documented fields)) (23 generated theorems) + rule oracle on Go outputs + correspondence',
+                text='For 23 base strategies Lean proves that the decision at position i is the documented rule applied to the C01/C02 indicator model evaluated on the documented snapshot fields at the same position. '
+                     'Independently, the documented rule (Python transcription) is applied to the real indicator outputs on the documented fields and compared with the real actions on OHLCV series whose fields vary independently.',
+                design='§6 C06', note=NOTE_COMMON + ' tools/scatalog.py holds my transcription of the documented rules. Known finding: CciStrategy field wiring.'),
+    'C07': dict(level='proof', technique='Lean 4 proofs over arbitrary action words: pointwise vote theorems, split/inverse specs, No-Loss and Stop-Loss safety invariants (reals) + exhaustive/random differential correspondence with scripted stubs',
+                text='And/Or/Majority are proved equal to the position-wise vote over the denormalised sources with length = shortest source, for any number k>=1 of sources and any words; Split and Inverse are characterised; '
+                     'No-Loss (never sells at a close not above the preceding Buy close) and Stop-Loss (sells at the first close at or below purchase*(1-pct), 0<=pct<1) are invariants proved by induction over the history. '
+                     'The Go combinators are driven with scripted stub strategies (all 27x27 word pairs of length 3, all words to length 5 for decorators, random nesting) and compared with the model and an independent oracle.',
+                design='§6 C07', note=NOTE_COMMON + ' Wrapped strategies are stubs replaying arbitrary words of at least one action per snapshot.'),
+    'C08': dict(level='proof', technique='Lean 4 proofs by induction over action histories (portfolio invariant, normalisation alternation, round trip) + differential correspondence and property oracle on Go',
+                text='Outcome length, >= -100%, zero before the first Buy, buy-and-hold = v_i/v_0-1, invariance under normalisation, alternation of normalised streams starting with Buy and normalize-denormalize-normalize = normalize are theorems for all words and all positive value series; '
+                     'the Go Outcome/Normalize/Denormalize/CountTransactions are compared bit-for-bit with the model on all words up to length 5 and random words/series of unequal lengths, and each property is evaluated on the Go output.',
+                design='§6 C08', note=NOTE_COMMON + ' Theorems over the reals (positive values).'),
+})
+
 PENDING = {}
 
 def main():
